@@ -21,6 +21,7 @@ RULE = ("history cases execute 5-12 calls in ONE worker process: propka.run.sing
         "descriptors."
         " Inputs include MODEL files in which several ionizable residues exist in later models only; main-mode calls also carry -i and -p.")
 RULE = RULE + " Round 8: parameter files of a history are one file per content, one path rewritten between the calls, or a bare name resolved in the call's working directory."
+RULE = RULE + ' Round 13: parameter files also replace rows of the backbone hydrogen-bond tables.'
 RULE = RULE + ' Rounds 10-12: the shipped parameter file under its bare name; nucleotide inputs followed by ligands with groups of the same types, half of their calls through main with several files; series of ligand complexes on one protein and site.'
 ASSUMPTIONS = ["pseudo-addresses are 16-aligned like CPython object addresses; unaligned values would create set "
                "orders that real addresses cannot produce"]
@@ -174,6 +175,14 @@ def concretise(opts, text, rng):
                         ("Nmin", (280, 240)), ("Nmax", (560, 600)), ("sidechain_interaction", (0.85, 0.7)),
                         ("common_charge_centre", (0, 1)), ("desolvationAllowance", (0.0, 0.1))):
             if rng.random() < 0.35:
+                ov[k] = rng.choice(vals)
+        # rows of the backbone hydrogen-bond tables: a look-up remembered per pair of group types
+        # from an earlier parameter set would show
+        for k, vals in (("ROW:backbone_NH_hydrogen_bond COO", ("-1.20 2.00 3.50", "-0.40 2.00 3.00")),
+                        ("ROW:backbone_NH_hydrogen_bond CYS", ("-1.50 3.00 4.50",)),
+                        ("ROW:backbone_NH_hydrogen_bond TYR", ("-0.30 2.20 3.60",)),
+                        ("ROW:backbone_CO_hydrogen_bond HIS", ("1.40 2.00 3.50", "0.30 2.00 3.00"))):
+            if rng.random() < 0.3:
                 ov[k] = rng.choice(vals)
         return ["-p", "CFG:" + json.dumps(ov, sort_keys=True)]
     if opts == ["TITRATE"]:
